@@ -1,46 +1,80 @@
 package main
 
+// RLE_DICTIONARY at the level of values: the dictionaries that turn values into
+// the indexes which the RLE/bit-packed hybrid encodes (main.go checks the index
+// encoding itself against the model).  Losslessness of the encoding needs, for
+// every dictionary kind of the library and whatever the dictionary object was
+// used for before:
+//
+//	Index(indexes[i]) == values[i]   after Insert(indexes, values)
+//
+// Three families of scenarios:
+//
+//   - dictBulk: columns of every kind filled by ONE typed Write of many rows;
+//   - dictLife: the life cycle of one Dictionary object through the public API
+//     (NewDictionary over existing values, Insert, Lookup, Bounds, Page, Reset,
+//     Insert again with overlapping and disjoint values);
+//   - dictFile: files of several row groups (Flush, MaxRowsPerRowGroup), writers
+//     and buffers reused through Reset, whose later row groups repeat and do not
+//     repeat earlier values, with and without the fallback to PLAIN when the
+//     dictionary outgrows DictionaryMaxBytes in the middle of a row group;
+//     written through Writer.WriteRows (Dictionary.Insert of Values) and through
+//     the typed GenericWriter/GenericBuffer (bulk insert of Go memory and the
+//     scalar insert of time.Time fields), read back and compared.
+
 import (
+	"bytes"
 	"fmt"
+	"io"
 	"math"
+	"math/rand"
 	"reflect"
+	"sort"
+	"time"
 
 	"github.com/parquet-go/parquet-go"
+	"github.com/parquet-go/parquet-go/deprecated"
+	"github.com/parquet-go/parquet-go/format"
 	"verif/harness/core"
 )
 
-// dictBulk: RLE_DICTIONARY columns of every dictionary kind filled by ONE
-// typed Write call of many rows (the dictionaries insert in chunks; a new key
-// may first appear deep inside a batch), read back and compared.  The bulk
-// insertion routines are not reached by row-at-a-time writes.
+// ---------------------------------------------------------------------------
+// typed rows holding one column per dictionary kind
+
 type dictRow struct {
-	I32 int32    `parquet:"i32,dict"`
-	I64 int64    `parquet:"i64,dict"`
-	U32 uint32   `parquet:"u32,dict"`
-	U64 uint64   `parquet:"u64,dict"`
-	F32 float32  `parquet:"f32,dict"`
-	F64 float64  `parquet:"f64,dict"`
-	S   string   `parquet:"s,dict"`
-	B16 [16]byte `parquet:"b16,dict"`
-	U   [16]byte `parquet:"u,uuid,dict"`
-	B5  [5]byte  `parquet:"b5,dict"`
-	O   *int64   `parquet:"o,dict"`
-	L   []string `parquet:"l,dict"`
+	Bo  bool              `parquet:"bo,dict"`
+	I32 int32             `parquet:"i32,dict"`
+	I64 int64             `parquet:"i64,dict"`
+	T96 deprecated.Int96  `parquet:"t96,dict"`
+	U32 uint32            `parquet:"u32,dict"`
+	U64 uint64            `parquet:"u64,dict"`
+	F32 float32           `parquet:"f32,dict"`
+	F64 float64           `parquet:"f64,dict"`
+	S   string            `parquet:"s,dict"`
+	B16 [16]byte          `parquet:"b16,dict"`
+	U   [16]byte          `parquet:"u,uuid,dict"`
+	B5  [5]byte           `parquet:"b5,dict"`
+	Tm  time.Time         `parquet:"tm,dict,timestamp(microsecond)"`
+	Dt  int32             `parquet:"dt,dict,date"`
+	O   *int64            `parquet:"o,dict"`
+	O96 *deprecated.Int96 `parquet:"o96,dict"`
+	L   []string          `parquet:"l,dict"`
 }
 
 func dictRowOf(key int) dictRow {
-	r := dictRow{I32: int32(key) * -7, I64: int64(key) << 33, U32: uint32(key) * 0x9E3779B1, U64: uint64(key) * 0x9E3779B97F4A7C15,
-		F32: float32(key) / 3, F64: float64(key) / 7, S: fmt.Sprintf("key-%d", key)}
-	for i := range r.B16 {
-		r.B16[i] = byte(key * (i + 1))
-		r.U[i] = byte(key + i)
-	}
-	for i := range r.B5 {
-		r.B5[i] = byte(key >> i)
-	}
+	r := dictRow{Bo: key&1 == 1, I32: i32Of(key), I64: i64Of(key), T96: i96Of(key), U32: mix32(key), U64: mix64(key),
+		F32: f32Of(key), F64: f64Of(key), S: string(baOf(key)), Dt: int32(key) * 3,
+		Tm: time.Unix(int64(key)*1000, int64(key)*1000).UTC()}
+	copy(r.B16[:], flbaOf(16, key))
+	copy(r.U[:], flbaOf(16, key+1))
+	copy(r.B5[:], flbaOf(5, key))
 	if key%3 != 0 {
 		v := int64(key) * 11
 		r.O = &v
+	}
+	if key%4 != 1 {
+		v := i96Of(key + 2)
+		r.O96 = &v
 	}
 	for i := 0; i < key%3; i++ {
 		r.L = append(r.L, fmt.Sprintf("l%d-%d", key, i))
@@ -48,6 +82,43 @@ func dictRowOf(key int) dictRow {
 	return r
 }
 
+// diffDictRow names the first column in which two rows differ ("" if none);
+// floating point columns are compared bit for bit.
+func diffDictRow(a, b dictRow) string {
+	if math.Float32bits(a.F32) != math.Float32bits(b.F32) {
+		return fmt.Sprintf("f32: %x read back as %x", math.Float32bits(a.F32), math.Float32bits(b.F32))
+	}
+	if math.Float64bits(a.F64) != math.Float64bits(b.F64) {
+		return fmt.Sprintf("f64: %x read back as %x", math.Float64bits(a.F64), math.Float64bits(b.F64))
+	}
+	if !a.Tm.Equal(b.Tm) {
+		return fmt.Sprintf("tm: %v read back as %v", a.Tm, b.Tm)
+	}
+	a.F32, b.F32, a.F64, b.F64 = 0, 0, 0, 0
+	a.Tm, b.Tm = time.Time{}, time.Time{}
+	if len(a.L) == 0 {
+		a.L = nil
+	}
+	if len(b.L) == 0 {
+		b.L = nil
+	}
+	va, vb := reflect.ValueOf(a), reflect.ValueOf(b)
+	for i := 0; i < va.NumField(); i++ {
+		if !reflect.DeepEqual(va.Field(i).Interface(), vb.Field(i).Interface()) {
+			x, y := va.Field(i), vb.Field(i)
+			if x.Kind() == reflect.Ptr && !x.IsNil() && !y.IsNil() {
+				x, y = x.Elem(), y.Elem()
+			}
+			return fmt.Sprintf("%s: %v read back as %v", va.Type().Field(i).Name, x.Interface(), y.Interface())
+		}
+	}
+	return ""
+}
+
+// dictBulk: RLE_DICTIONARY columns of every dictionary kind filled by ONE
+// typed Write call of many rows (the dictionaries insert in chunks; a new key
+// may first appear deep inside a batch), read back and compared.  The bulk
+// insertion routines are not reached by row-at-a-time writes.
 func dictBulk(c *core.Ctx) {
 	for _, n := range []int{1, 64, 511, 512, 513, 1100, 2500} {
 		for _, stride := range []int{1, 37, 300, 700} {
@@ -73,20 +144,8 @@ func dictBulk(c *core.Ctx) {
 					return
 				}
 				for i := range rows {
-					a, b := rows[i], out[i]
-					if math.Float32bits(a.F32) != math.Float32bits(b.F32) || math.Float64bits(a.F64) != math.Float64bits(b.F64) {
-						bad = fmt.Sprintf("row %d: float columns differ", i)
-						return
-					}
-					a.F32, b.F32, a.F64, b.F64 = 0, 0, 0, 0
-					if len(a.L) == 0 {
-						a.L = nil
-					}
-					if len(b.L) == 0 {
-						b.L = nil
-					}
-					if !reflect.DeepEqual(a, b) {
-						bad = fmt.Sprintf("row %d (key %d) read back as %+v, written %+v", i, i/stride, b, a)
+					if d := diffDictRow(rows[i], out[i]); d != "" {
+						bad = fmt.Sprintf("row %d (key %d): column %s", i, i/stride, d)
 						return
 					}
 				}
@@ -100,4 +159,1406 @@ func dictBulk(c *core.Ctx) {
 			c.Case("dict/bulk", fmt.Sprintf("%d/%d", n, stride), n > 1)
 		}
 	}
+}
+
+// ---------------------------------------------------------------------------
+// values of every kind, as a function of a small integer key (low keys are the
+// special values of the type; two keys may give the same value: the reference
+// works on the values, not on the keys)
+
+func mix32(key int) uint32 { return uint32(key) * 0x9E3779B1 }
+func mix64(key int) uint64 { return uint64(key) * 0x9E3779B97F4A7C15 }
+
+func i32Of(key int) int32 {
+	sp := []int32{0, -1, 1, math.MinInt32, math.MaxInt32, 2, -2}
+	if key < len(sp) {
+		return sp[key]
+	}
+	return int32(mix32(key))
+}
+
+func i64Of(key int) int64 {
+	sp := []int64{0, -1, 1, math.MinInt64, math.MaxInt64, 1 << 32, -(1 << 32)}
+	if key < len(sp) {
+		return sp[key]
+	}
+	return int64(mix64(key))
+}
+
+func i96Of(key int) deprecated.Int96 {
+	sp := []deprecated.Int96{{0, 0, 0}, {1, 0, 0}, {0, 1, 0}, {0, 0, 1}, {0xFFFFFFFF, 0xFFFFFFFF, 0xFFFFFFFF}, {0, 0, 0x80000000}}
+	if key < len(sp) {
+		return sp[key]
+	}
+	return deprecated.Int96{uint32(key), uint32(key * 7), 2440588}
+}
+
+func f32Of(key int) float32 {
+	sp := []uint32{0, 0x80000000, 0x7fc00000, 0x7fc00001, 0xffc00000, 0x7f800000, 0xff800000, 1, 0x3f800000}
+	if key < len(sp) {
+		return math.Float32frombits(sp[key])
+	}
+	return float32(key) / 3
+}
+
+func f64Of(key int) float64 {
+	sp := []uint64{0, 1 << 63, 0x7ff8000000000000, 0x7ff8000000000001, 0xfff8000000000000, 0x7ff0000000000000, 0xfff0000000000000, 1, 0x3ff0000000000000}
+	if key < len(sp) {
+		return math.Float64frombits(sp[key])
+	}
+	return float64(key) / 7
+}
+
+func baOf(key int) []byte {
+	sp := [][]byte{{}, {0}, []byte("a"), []byte("ab"), []byte("abc"), bytes.Repeat([]byte{0xff}, 300), {0, 0}, []byte("key-7\x00")}
+	if key < len(sp) {
+		return sp[key]
+	}
+	return []byte(fmt.Sprintf("key-%d", key))
+}
+
+func flbaOf(n, key int) []byte {
+	b := make([]byte, n)
+	switch key {
+	case 0:
+	case 1:
+		for i := range b {
+			b[i] = 0xff
+		}
+	default:
+		for i := range b {
+			b[i] = byte(mix64(key+i/8*977) >> (8 * uint(i%8)))
+		}
+	}
+	return b
+}
+
+type dictKind struct {
+	name string
+	node parquet.Node // required leaf, no encoding
+}
+
+var dictKinds = []dictKind{
+	{"boolean", parquet.Leaf(parquet.BooleanType)},
+	{"int32", parquet.Leaf(parquet.Int32Type)},
+	{"int64", parquet.Leaf(parquet.Int64Type)},
+	{"int96", parquet.Leaf(parquet.Int96Type)},
+	{"float", parquet.Leaf(parquet.FloatType)},
+	{"double", parquet.Leaf(parquet.DoubleType)},
+	{"byte_array", parquet.Leaf(parquet.ByteArrayType)},
+	{"string", parquet.String()},
+	{"enum", parquet.Enum()},
+	{"flba1", parquet.Leaf(parquet.FixedLenByteArrayType(1))},
+	{"flba5", parquet.Leaf(parquet.FixedLenByteArrayType(5))},
+	{"flba17", parquet.Leaf(parquet.FixedLenByteArrayType(17))},
+	{"interval", parquet.IntervalNode()},
+	{"be128", parquet.Leaf(parquet.FixedLenByteArrayType(16))},
+	{"uuid", parquet.UUID()},
+	{"uint8", parquet.Uint(8)},
+	{"int16", parquet.Int(16)},
+	{"uint32", parquet.Uint(32)},
+	{"uint64", parquet.Uint(64)},
+	{"date", parquet.Date()},
+	{"time_ms", parquet.Time(parquet.Millisecond)},
+	{"time_us", parquet.Time(parquet.Microsecond)},
+	{"timestamp", parquet.Timestamp(parquet.Nanosecond)},
+	{"decimal_int32", parquet.Decimal(2, 9, parquet.Int32Type)},
+	{"decimal_int64", parquet.Decimal(2, 18, parquet.Int64Type)},
+	{"decimal_flba7", parquet.Decimal(2, 16, parquet.FixedLenByteArrayType(7))},
+	{"decimal_be128", parquet.Decimal(2, 38, parquet.FixedLenByteArrayType(16))},
+	{"decimal_ba", parquet.Decimal(2, 20, parquet.ByteArrayType)},
+	{"null", parquet.Leaf(parquet.NullType)},
+}
+
+func kindNamed(name string) *dictKind {
+	for i := range dictKinds {
+		if dictKinds[i].name == name {
+			return &dictKinds[i]
+		}
+	}
+	return nil
+}
+
+func (k *dictKind) isNull() bool { return k.name == "null" }
+func (k *dictKind) isBool() bool { return k.node.Type().Kind() == parquet.Boolean }
+
+func (k *dictKind) val(key int) parquet.Value {
+	t := k.node.Type()
+	switch t.Kind() {
+	case parquet.Boolean:
+		return parquet.BooleanValue(key&1 == 1)
+	case parquet.Int32:
+		return parquet.Int32Value(i32Of(key))
+	case parquet.Int64:
+		return parquet.Int64Value(i64Of(key))
+	case parquet.Int96:
+		return parquet.Int96Value(i96Of(key))
+	case parquet.Float:
+		return parquet.FloatValue(f32Of(key))
+	case parquet.Double:
+		return parquet.DoubleValue(f64Of(key))
+	case parquet.ByteArray:
+		return parquet.ByteArrayValue(baOf(key))
+	case parquet.FixedLenByteArray:
+		return parquet.FixedLenByteArrayValue(flbaOf(t.Length(), key))
+	}
+	return parquet.NullValue()
+}
+
+func sameValue(a, b parquet.Value) bool {
+	if a.IsNull() || b.IsNull() {
+		return a.IsNull() && b.IsNull()
+	}
+	return a.Kind() == b.Kind() && bytes.Equal(a.Bytes(), b.Bytes())
+}
+
+func valueKey(v parquet.Value) string {
+	if v.IsNull() {
+		return "null"
+	}
+	return fmt.Sprintf("%d:%x", v.Kind(), v.Bytes())
+}
+
+func showValue(v parquet.Value) string {
+	if v.IsNull() {
+		return "null"
+	}
+	return core.Trunc(fmt.Sprintf("%s(%x)", v.Kind(), v.Bytes()), 80)
+}
+
+func isNaNValue(v parquet.Value) bool {
+	switch v.Kind() {
+	case parquet.Float:
+		return v.Float() != v.Float()
+	case parquet.Double:
+		return v.Double() != v.Double()
+	}
+	return false
+}
+
+// ---------------------------------------------------------------------------
+// dictLife: one Dictionary object driven through the public API
+
+type dictOp struct {
+	Reset bool  `json:"reset,omitempty"`
+	Keys  []int `json:"keys,omitempty"` // Insert of the values of these keys (Reset false)
+}
+
+type dictLifeCase struct {
+	Kind string   `json:"kind"`
+	Pre  []int    `json:"pre,omitempty"` // NewDictionary over the (distinct) values of these keys
+	Ops  []dictOp `json:"ops"`
+}
+
+func (lc *dictLifeCase) String() string {
+	s := lc.Kind
+	if len(lc.Pre) > 0 {
+		s += fmt.Sprintf(" new%v", lc.Pre)
+	}
+	for _, op := range lc.Ops {
+		if op.Reset {
+			s += " R"
+		} else {
+			s += fmt.Sprintf(" I%v", op.Keys)
+		}
+	}
+	return s
+}
+
+// newDictionary builds the dictionary of the kind over existing values, the way
+// a dictionary page read from a file is handed to Type.NewDictionary, or empty
+// the way the writer creates it.
+func (k *dictKind) newDictionary(pre []int) parquet.Dictionary {
+	t := k.node.Type()
+	if len(pre) == 0 {
+		return t.NewDictionary(0, 0, t.NewValues(make([]byte, 0, 64), nil))
+	}
+	var data []byte
+	var offsets []uint32
+	switch t.Kind() {
+	case parquet.Boolean:
+		data = make([]byte, (len(pre)+7)/8)
+		for i, key := range pre {
+			if key&1 == 1 {
+				data[i/8] |= 1 << uint(i%8)
+			}
+		}
+	case parquet.ByteArray:
+		offsets = []uint32{0}
+		for _, key := range pre {
+			data = append(data, baOf(key)...)
+			offsets = append(offsets, uint32(len(data)))
+		}
+	default:
+		for _, key := range pre {
+			data = append(data, k.val(key).Bytes()...)
+		}
+	}
+	return t.NewDictionary(0, len(pre), t.NewValues(data, offsets))
+}
+
+// checkLife runs the history and evaluates, after every call, what the
+// encoding relies on; it returns the description of the first failure.
+func checkLife(lc *dictLifeCase) (bad string) {
+	k := kindNamed(lc.Kind)
+	if k == nil {
+		return ""
+	}
+	t := k.node.Type()
+	var d parquet.Dictionary
+	if p := safely(func() { d = k.newDictionary(lc.Pre) }); p != "" {
+		return "NewDictionary panicked: " + core.Trunc(p, 200)
+	}
+	distinct := map[string]bool{} // values the dictionary holds since its creation or last Reset
+	for _, key := range lc.Pre {
+		distinct[valueKey(k.val(key))] = true
+	}
+	if !k.isNull() && d.Len() != len(lc.Pre) {
+		return fmt.Sprintf("NewDictionary over %d values: Len() = %d", len(lc.Pre), d.Len())
+	}
+	for i, key := range lc.Pre {
+		var got parquet.Value
+		if p := safely(func() { got = d.Index(int32(i)) }); p != "" {
+			return fmt.Sprintf("NewDictionary over %d values: Index(%d) panicked: %s", len(lc.Pre), i, core.Trunc(p, 200))
+		}
+		if !k.isNull() && !sameValue(got, k.val(key)) {
+			return fmt.Sprintf("NewDictionary over %d values: Index(%d) = %s, created with %s", len(lc.Pre), i, showValue(got), showValue(k.val(key)))
+		}
+	}
+	for oi, op := range lc.Ops {
+		at := fmt.Sprintf("call %d", oi+1)
+		if op.Reset {
+			var n int
+			var pn int64
+			if p := safely(func() { d.Reset(); n = d.Len(); pn = d.Page().NumValues() }); p != "" {
+				return at + " Reset panicked: " + core.Trunc(p, 200)
+			}
+			if n != 0 || pn != 0 {
+				return fmt.Sprintf("%s Reset: Len() = %d, Page().NumValues() = %d afterwards", at, n, pn)
+			}
+			distinct = map[string]bool{}
+			continue
+		}
+		values := make([]parquet.Value, len(op.Keys))
+		for i, key := range op.Keys {
+			values[i] = k.val(key)
+			distinct[valueKey(values[i])] = true
+		}
+		at += fmt.Sprintf(" Insert of %d values", len(values))
+		indexes := make([]int32, len(values)+2)
+		for i := range indexes {
+			indexes[i] = -77
+		}
+		if k.isNull() {
+			for i := range indexes {
+				indexes[i] = 0 // the NULL dictionary assigns no index
+			}
+		}
+		if p := safely(func() { d.Insert(indexes[:len(values)], values) }); p != "" {
+			return at + " panicked: " + core.Trunc(p, 200)
+		}
+		if !k.isNull() && (indexes[len(values)] != -77 || indexes[len(values)+1] != -77) {
+			return at + " wrote behind the indexes it was given"
+		}
+		indexes = indexes[:len(values)]
+		n := d.Len()
+		if !k.isNull() {
+			for i, x := range indexes {
+				if x < 0 || int(x) >= n {
+					return fmt.Sprintf("%s: value %d (%s) got index %d, the dictionary holds %d values", at, i, showValue(values[i]), x, n)
+				}
+			}
+		}
+		for i, x := range indexes {
+			var got parquet.Value
+			if p := safely(func() { got = d.Index(x) }); p != "" {
+				return fmt.Sprintf("%s: Index(%d) panicked: %s", at, x, core.Trunc(p, 200))
+			}
+			if !sameValue(got, values[i]) {
+				return fmt.Sprintf("%s: value %d (%s) got index %d which designates %s", at, i, showValue(values[i]), x, showValue(got))
+			}
+		}
+		// the dictionary holds the distinct values and nothing else (BOOLEAN
+		// dictionaries always hold both values once a value was inserted)
+		switch {
+		case k.isNull():
+		case k.isBool():
+			if n > len(lc.Pre)+2 {
+				return fmt.Sprintf("%s: the dictionary holds %d values", at, n)
+			}
+		default:
+			if n != len(distinct) {
+				return fmt.Sprintf("%s: the dictionary holds %d values, %d distinct values were inserted since it was created or reset", at, n, len(distinct))
+			}
+		}
+		// Lookup
+		out := make([]parquet.Value, len(values))
+		if p := safely(func() { d.Lookup(indexes, out) }); p != "" {
+			return at + ": Lookup of the returned indexes panicked: " + core.Trunc(p, 200)
+		}
+		for i := range out {
+			if !sameValue(out[i], values[i]) {
+				return fmt.Sprintf("%s: Lookup gives %s for value %d (%s, index %d)", at, showValue(out[i]), i, showValue(values[i]), indexes[i])
+			}
+		}
+		// Bounds
+		var lo, hi parquet.Value
+		if p := safely(func() { lo, hi = d.Bounds(indexes) }); p != "" {
+			return at + ": Bounds of the returned indexes panicked: " + core.Trunc(p, 200)
+		}
+		if !k.isNull() {
+			if msg := checkBounds(t, values, lo, hi); msg != "" {
+				return at + ": Bounds of the returned indexes: " + msg
+			}
+		}
+		// Page: what the writer puts in the dictionary page
+		var pageVals []parquet.Value
+		var pn int64
+		if p := safely(func() {
+			pg := d.Page()
+			pn = pg.NumValues()
+			pageVals = make([]parquet.Value, n+1)
+			m, _ := pg.Values().ReadValues(pageVals)
+			pageVals = pageVals[:m]
+		}); p != "" {
+			return at + ": reading Page() panicked: " + core.Trunc(p, 200)
+		}
+		if !k.isNull() {
+			if pn != int64(n) || len(pageVals) != n {
+				return fmt.Sprintf("%s: Page() has %d values (%d read), Len() = %d", at, pn, len(pageVals), n)
+			}
+			for i, v := range pageVals {
+				if !sameValue(v, d.Index(int32(i))) {
+					return fmt.Sprintf("%s: value %d of Page() is %s, Index(%d) = %s", at, i, showValue(v), i, showValue(d.Index(int32(i))))
+				}
+			}
+		}
+	}
+	return ""
+}
+
+func checkBounds(t parquet.Type, values []parquet.Value, lo, hi parquet.Value) string {
+	if len(values) == 0 {
+		if !lo.IsNull() || !hi.IsNull() {
+			return "not null for no index"
+		}
+		return ""
+	}
+	var wantLo, wantHi parquet.Value
+	have := false
+	for _, v := range values {
+		if isNaNValue(v) {
+			continue
+		}
+		if !have {
+			wantLo, wantHi, have = v, v, true
+			continue
+		}
+		if t.Compare(v, wantLo) < 0 {
+			wantLo = v
+		}
+		if t.Compare(v, wantHi) > 0 {
+			wantHi = v
+		}
+	}
+	if lo.IsNull() || hi.IsNull() {
+		return "null bounds for " + fmt.Sprint(len(values)) + " values"
+	}
+	if !have { // NaN only
+		if !isNaNValue(lo) || !isNaNValue(hi) {
+			return fmt.Sprintf("[%s, %s] for NaN values only", showValue(lo), showValue(hi))
+		}
+		return ""
+	}
+	if isNaNValue(lo) || isNaNValue(hi) || t.Compare(lo, wantLo) != 0 || t.Compare(hi, wantHi) != 0 {
+		return fmt.Sprintf("[%s, %s], the values span [%s, %s]", showValue(lo), showValue(hi), showValue(wantLo), showValue(wantHi))
+	}
+	return ""
+}
+
+func (k *checker) checkLifeCase(lc *dictLifeCase) {
+	bad := ""
+	if p := safely(func() { bad = checkLife(lc) }); p != "" {
+		bad = "panic: " + core.Trunc(p, 200)
+	}
+	if bad != "" {
+		k.viol("dict-life", "Dictionary ("+lc.Kind+") "+lifeHistory(lc)+": "+bad)
+	}
+}
+
+func lifeHistory(lc *dictLifeCase) string {
+	s := ""
+	if len(lc.Pre) > 0 {
+		s = fmt.Sprintf("NewDictionary over %d values; ", len(lc.Pre))
+	}
+	for i, op := range lc.Ops {
+		if i > 0 {
+			s += ", "
+		}
+		if op.Reset {
+			s += "Reset"
+		} else if len(op.Keys) <= 6 {
+			s += fmt.Sprintf("Insert%v", op.Keys)
+		} else {
+			s += fmt.Sprintf("Insert(%d values)", len(op.Keys))
+		}
+	}
+	return "[" + s + "]"
+}
+
+func shrinkLife(c *core.Ctx, lc *dictLifeCase) *dictLifeCase {
+	cur := *lc
+	fails := func(t *dictLifeCase) bool {
+		return c.Probe(func() { check(c, &c04Case{Enc: "dict-life", Life: t}) })
+	}
+	for changed := true; changed; {
+		changed = false
+		if len(cur.Pre) > 0 {
+			for _, pre := range [][]int{nil, cur.Pre[:len(cur.Pre)/2], cur.Pre[1:]} {
+				t := cur
+				t.Pre = pre
+				if fails(&t) {
+					cur, changed = t, true
+					break
+				}
+			}
+			if changed {
+				continue
+			}
+		}
+		for i := range cur.Ops {
+			t := cur
+			t.Ops = append(append([]dictOp(nil), cur.Ops[:i]...), cur.Ops[i+1:]...)
+			if fails(&t) {
+				cur, changed = t, true
+				break
+			}
+		}
+		if changed {
+			continue
+		}
+		for i, op := range cur.Ops {
+			for _, n := range []int{len(op.Keys) / 2, len(op.Keys) / 4, 8, 1} {
+				if n < 1 || n > len(op.Keys) {
+					continue
+				}
+				for j := 0; j+n <= len(op.Keys); j += n {
+					t := cur
+					t.Ops = append([]dictOp(nil), cur.Ops...)
+					t.Ops[i].Keys = append(append([]int(nil), op.Keys[:j]...), op.Keys[j+n:]...)
+					if fails(&t) {
+						cur, changed = t, true
+						break
+					}
+				}
+				if changed {
+					break
+				}
+			}
+			if changed {
+				break
+			}
+		}
+	}
+	// dense keys, when the failure does not depend on the values themselves
+	ren := map[int]int{}
+	t := cur
+	t.Pre = renameKeys(cur.Pre, ren)
+	t.Ops = make([]dictOp, len(cur.Ops))
+	for i, op := range cur.Ops {
+		t.Ops[i] = dictOp{Reset: op.Reset, Keys: renameKeys(op.Keys, ren)}
+	}
+	if fails(&t) {
+		cur = t
+	}
+	return &cur
+}
+
+// keys are renamed to 10, 11, ... (the keys below 10 are special values)
+func renameKeys(keys []int, ren map[int]int) []int {
+	if keys == nil {
+		return nil
+	}
+	out := make([]int, len(keys))
+	for i, key := range keys {
+		if _, ok := ren[key]; !ok {
+			ren[key] = 10 + len(ren)
+		}
+		out[i] = ren[key]
+	}
+	return out
+}
+
+func runLife(c *core.Ctx, lc *dictLifeCase, bucket string) {
+	cs := &c04Case{Enc: "dict-life", Life: lc}
+	if c.Probe(func() { check(c, cs) }) {
+		check(c, &c04Case{Enc: "dict-life", Life: shrinkLife(c, lc)})
+	}
+	inserts, resets := 0, 0
+	for _, op := range lc.Ops {
+		if op.Reset {
+			resets++
+		} else if len(op.Keys) > 0 {
+			inserts++
+		}
+	}
+	c.Case("dict/life/"+bucket, lc.String(), inserts >= 2 && resets >= 1 || len(lc.Pre) > 0 && inserts >= 1)
+}
+
+// keysFrom draws n keys: mode 0 cycles through [base, base+span), 1 the same
+// backwards, 2 random keys of the range, 3 runs of equal keys.
+func keysFrom(rng *rand.Rand, n, base, span, mode int) []int {
+	if span < 1 {
+		span = 1
+	}
+	out := make([]int, n)
+	run := base
+	for i := range out {
+		switch mode {
+		case 0:
+			out[i] = base + i%span
+		case 1:
+			out[i] = base + span - 1 - i%span
+		case 2:
+			out[i] = base + rng.Intn(span)
+		default:
+			if rng.Intn(5) == 0 {
+				run = base + rng.Intn(span)
+			}
+			out[i] = run
+		}
+	}
+	return out
+}
+
+func dictLife(c *core.Ctx) {
+	rng := c.Rng
+	// every short history over a small alphabet of calls, for every kind, on an
+	// empty dictionary and on dictionaries created over existing values
+	alphabet := []dictOp{{Reset: true}, {Keys: []int{}}, {Keys: []int{10}}, {Keys: []int{11}}, {Keys: []int{10, 11}},
+		{Keys: []int{11, 10}}, {Keys: []int{12, 10, 12}}, {Keys: []int{2, 2, 3}}}
+	pres := [][]int{nil, {11}, {10, 11}, {12, 10, 11, 13, 14, 15, 16, 17, 18}}
+	depth := c.N(3, 4)
+	for ki := range dictKinds {
+		k := &dictKinds[ki]
+		for _, pre := range pres {
+			var rec func(ops []dictOp)
+			rec = func(ops []dictOp) {
+				if len(ops) > 0 {
+					runLife(c, &dictLifeCase{Kind: k.name, Pre: pre, Ops: append([]dictOp(nil), ops...)}, "exhaustive")
+				}
+				if len(ops) == depth {
+					return
+				}
+				for _, op := range alphabet {
+					rec(append(ops, op))
+				}
+			}
+			rec(nil)
+		}
+	}
+	c.Note("dictionary life cycle: every history of at most %d calls over {Reset, Insert of 8 small batches} x {empty, created over 1, 2, 9 values} for each of the %d dictionary kinds", depth, len(dictKinds))
+	// longer histories with batches across the chunk sizes of the bulk inserts
+	sizes := []int{1, 3, 64, 513, 1100, 2100, 2600, 4200}
+	for ki := range dictKinds {
+		k := &dictKinds[ki]
+		for rep := 0; rep < c.N(6, 40); rep++ {
+			lc := &dictLifeCase{Kind: k.name}
+			span := []int{1, 2, 5, 40, 300, 1500}[rng.Intn(6)]
+			if rng.Intn(3) == 0 {
+				lc.Pre = keysFrom(rng, 1+rng.Intn(span), 0, 1<<30, 0)
+				lc.Pre = lc.Pre[:min(len(lc.Pre), 700)]
+				if k.isBool() {
+					lc.Pre = lc.Pre[:min(len(lc.Pre), 2)]
+				}
+			}
+			base := 0
+			for n := 2 + rng.Intn(5); n > 0; n-- {
+				switch rng.Intn(4) {
+				case 0:
+					lc.Ops = append(lc.Ops, dictOp{Reset: true})
+					// after a reset: the same values, an overlapping range or new values
+					base += []int{0, span / 2, span, 7 * span}[rng.Intn(4)]
+				default:
+					sz := sizes[rng.Intn(len(sizes))]
+					if c.Quick() && sz > 2600 {
+						sz = 2600
+					}
+					lc.Ops = append(lc.Ops, dictOp{Keys: keysFrom(rng, sz, base, span, rng.Intn(4))})
+					if rng.Intn(3) == 0 {
+						base += span / 2
+					}
+				}
+			}
+			runLife(c, lc, "random")
+		}
+	}
+}
+
+// ---------------------------------------------------------------------------
+// dictFile: files and buffers of several row groups
+
+type dictFileCase struct {
+	Kind     string    `json:"kind"`            // dictionary kind, "struct" for the typed row of all kinds
+	Path     string    `json:"path"`            // rows: Writer.WriteRows; typed: GenericWriter[dictRow].Write; buffer: GenericBuffer[dictRow] reused through Reset
+	Shape    string    `json:"shape,omitempty"` // rows: required | optional | repeated
+	Split    string    `json:"split,omitempty"` // flush | maxrows | reset (Close, Reset) | abandon (Reset without Close)
+	Chunk    int       `json:"chunk,omitempty"` // rows per Write call (0: one call per group)
+	Groups   [][][]int `json:"groups"`          // row group -> row -> keys of its values
+	MaxBytes int64     `json:"max_bytes,omitempty"`
+	PageBuf  int       `json:"page_buf,omitempty"`
+	V2       bool      `json:"v2,omitempty"`
+}
+
+func (fc *dictFileCase) String() string {
+	return fmt.Sprintf("%s/%s/%s/%s chunk=%d max=%d page=%d v2=%v %v", fc.Kind, fc.Path, fc.Shape, fc.Split, fc.Chunk, fc.MaxBytes, fc.PageBuf, fc.V2, fc.Groups)
+}
+
+func (fc *dictFileCase) what() string {
+	rows := 0
+	for _, g := range fc.Groups {
+		rows += len(g)
+	}
+	s := map[string]string{"rows": "Writer.WriteRows", "typed": "GenericWriter[dictRow].Write", "buffer": "GenericBuffer[dictRow].Write"}[fc.Path]
+	s += fmt.Sprintf(", RLE_DICTIONARY %s", fc.Kind)
+	if fc.Path == "rows" {
+		s += " (" + fc.Shape + ")"
+	}
+	s += fmt.Sprintf(", %d rows in %d groups", rows, len(fc.Groups))
+	switch {
+	case fc.Path == "buffer":
+		s += " (buffer Reset between)"
+	case fc.Split == "flush":
+		s += " (Flush between)"
+	case fc.Split == "maxrows":
+		s += fmt.Sprintf(" (MaxRowsPerRowGroup %d)", len(fc.Groups[0]))
+	case fc.Split == "reset":
+		s += " (one file each: Close, Reset)"
+	case fc.Split == "abandon":
+		s += " (writer Reset without Close between, last file checked)"
+	}
+	if fc.MaxBytes > 0 {
+		s += fmt.Sprintf(", DictionaryMaxBytes %d", fc.MaxBytes)
+	}
+	if fc.PageBuf > 0 {
+		s += fmt.Sprintf(", PageBufferSize %d", fc.PageBuf)
+	}
+	if fc.V2 {
+		s += ", data pages v2"
+	}
+	return s
+}
+
+type fileStats struct {
+	rowGroups int
+	dictPages int  // column chunks whose pages carry a dictionary
+	fallback  bool // a column chunk holds RLE_DICTIONARY and PLAIN data pages
+}
+
+func (fc *dictFileCase) options() []parquet.WriterOption {
+	var opts []parquet.WriterOption
+	if fc.MaxBytes > 0 {
+		opts = append(opts, parquet.DictionaryMaxBytes(fc.MaxBytes))
+	}
+	if fc.PageBuf > 0 {
+		opts = append(opts, parquet.PageBufferSize(fc.PageBuf))
+	}
+	if fc.Split == "maxrows" && len(fc.Groups[0]) > 0 {
+		opts = append(opts, parquet.MaxRowsPerRowGroup(int64(len(fc.Groups[0]))))
+	}
+	if fc.V2 {
+		opts = append(opts, parquet.DataPageVersion(2))
+	}
+	return opts
+}
+
+// sink abstracts the two writers
+type dictSink interface {
+	write(group [][]int, chunk int) error
+	Flush() error
+	Close() error
+	Reset(io.Writer)
+	// compares the content of a finished file with the rows written to it
+	verify(file []byte, groups [][][]int, st *fileStats) string
+}
+
+func checkFile(fc *dictFileCase, st *fileStats) (bad string) {
+	if len(fc.Groups) == 0 {
+		return ""
+	}
+	if fc.Path == "buffer" {
+		return checkBuffer(fc)
+	}
+	out := new(bytes.Buffer)
+	var w dictSink
+	if p := safely(func() {
+		if fc.Path == "typed" {
+			w = &typedSink{parquet.NewGenericWriter[dictRow](out, fc.options()...)}
+		} else {
+			w = newRowsSink(fc, out)
+		}
+	}); p != "" {
+		return "creating the writer panicked: " + core.Trunc(p, 200)
+	}
+	if w == nil {
+		return ""
+	}
+	var pending [][][]int
+	finish := func(g int) string {
+		var err error
+		if p := safely(func() { err = w.Close() }); p != "" {
+			return fmt.Sprintf("Close after group %d panicked: %s", g+1, core.Trunc(p, 200))
+		}
+		if err != nil {
+			return fmt.Sprintf("Close after group %d: %v", g+1, err)
+		}
+		msg := ""
+		if p := safely(func() { msg = w.verify(out.Bytes(), pending, st) }); p != "" {
+			return fmt.Sprintf("reading the file closed after group %d panicked: %s", g+1, core.Trunc(p, 200))
+		}
+		if msg != "" {
+			return fmt.Sprintf("file closed after group %d: %s", g+1, msg)
+		}
+		return ""
+	}
+	for g, grp := range fc.Groups {
+		var err error
+		if p := safely(func() { err = w.write(grp, fc.Chunk) }); p != "" {
+			return fmt.Sprintf("writing group %d panicked: %s", g+1, core.Trunc(p, 200))
+		}
+		if err != nil {
+			return fmt.Sprintf("writing group %d: %v", g+1, err)
+		}
+		pending = append(pending, grp)
+		last := g == len(fc.Groups)-1
+		switch fc.Split {
+		case "flush":
+			if !last {
+				if p := safely(func() { err = w.Flush() }); p != "" {
+					return fmt.Sprintf("Flush after group %d panicked: %s", g+1, core.Trunc(p, 200))
+				}
+				if err != nil {
+					return fmt.Sprintf("Flush after group %d: %v", g+1, err)
+				}
+			}
+		case "reset":
+			if msg := finish(g); msg != "" {
+				return msg
+			}
+			if !last {
+				out = new(bytes.Buffer)
+				pending = nil
+				if p := safely(func() { w.Reset(out) }); p != "" {
+					return fmt.Sprintf("Reset after group %d panicked: %s", g+1, core.Trunc(p, 200))
+				}
+			}
+		case "abandon":
+			if !last {
+				out = new(bytes.Buffer)
+				pending = nil
+				if p := safely(func() { w.Reset(out) }); p != "" {
+					return fmt.Sprintf("Reset after group %d panicked: %s", g+1, core.Trunc(p, 200))
+				}
+			}
+		}
+	}
+	if fc.Split != "reset" {
+		return finish(len(fc.Groups) - 1)
+	}
+	return ""
+}
+
+func inspect(f *parquet.File, st *fileStats) {
+	if st == nil {
+		return
+	}
+	md := f.Metadata()
+	st.rowGroups += len(md.RowGroups)
+	for _, rg := range md.RowGroups {
+		for _, col := range rg.Columns {
+			hasDict, hasPlain := false, false
+			for _, e := range col.MetaData.Encoding {
+				switch e {
+				case format.RLEDictionary:
+					hasDict = true
+				case format.Plain:
+					hasPlain = true
+				}
+			}
+			if hasDict && col.MetaData.DictionaryPageOffset > 0 {
+				st.dictPages++
+			}
+			if hasDict && hasPlain {
+				st.fallback = true
+			}
+		}
+	}
+}
+
+// --- Writer.WriteRows over a one-column schema of the kind
+
+type rowsSink struct {
+	k     *dictKind
+	shape string
+	w     *parquet.Writer
+}
+
+func newRowsSink(fc *dictFileCase, out io.Writer) dictSink {
+	k := kindNamed(fc.Kind)
+	if k == nil {
+		return nil
+	}
+	node := parquet.Encoded(k.node, &parquet.RLEDictionary)
+	switch fc.Shape {
+	case "optional":
+		node = parquet.Optional(node)
+	case "repeated":
+		node = parquet.Repeated(node)
+	}
+	schema := parquet.NewSchema("t", parquet.Group{"v": node})
+	opts := append([]parquet.WriterOption{schema}, fc.options()...)
+	return &rowsSink{k: k, shape: fc.Shape, w: parquet.NewWriter(out, opts...)}
+}
+
+// rowOf gives the row of a list of keys: required columns take the first key,
+// optional ones are null without a key, repeated ones hold all of them.
+func (s *rowsSink) rowOf(keys []int) parquet.Row {
+	switch s.shape {
+	case "optional":
+		if len(keys) == 0 || s.k.isNull() {
+			return parquet.Row{parquet.NullValue().Level(0, 0, 0)}
+		}
+		return parquet.Row{s.k.val(keys[0]).Level(0, 1, 0)}
+	case "repeated":
+		if len(keys) == 0 || s.k.isNull() {
+			return parquet.Row{parquet.NullValue().Level(0, 0, 0)}
+		}
+		row := make(parquet.Row, len(keys))
+		for i, key := range keys {
+			rep := 1
+			if i == 0 {
+				rep = 0
+			}
+			row[i] = s.k.val(key).Level(rep, 1, 0)
+		}
+		return row
+	}
+	key := 0
+	if len(keys) > 0 {
+		key = keys[0]
+	}
+	return parquet.Row{s.k.val(key).Level(0, 0, 0)}
+}
+
+func (s *rowsSink) write(group [][]int, chunk int) error {
+	rows := make([]parquet.Row, len(group))
+	for i, keys := range group {
+		rows[i] = s.rowOf(keys)
+	}
+	if chunk <= 0 {
+		chunk = len(rows)
+	}
+	for i := 0; i < len(rows); i += chunk {
+		j := min(i+chunk, len(rows))
+		n, err := s.w.WriteRows(rows[i:j])
+		if err != nil {
+			return err
+		}
+		if n != j-i {
+			return fmt.Errorf("WriteRows of %d rows wrote %d", j-i, n)
+		}
+	}
+	return nil
+}
+
+func (s *rowsSink) Flush() error      { return s.w.Flush() }
+func (s *rowsSink) Close() error      { return s.w.Close() }
+func (s *rowsSink) Reset(o io.Writer) { s.w.Reset(o) }
+
+func (s *rowsSink) verify(file []byte, groups [][][]int, st *fileStats) string {
+	f, err := parquet.OpenFile(bytes.NewReader(file), int64(len(file)))
+	if err != nil {
+		return "OpenFile: " + err.Error()
+	}
+	inspect(f, st)
+	var want []parquet.Row
+	for _, g := range groups {
+		for _, keys := range g {
+			want = append(want, s.rowOf(keys))
+		}
+	}
+	at := 0
+	for gi, rg := range f.RowGroups() {
+		rr := rg.Rows()
+		buf := make([]parquet.Row, 53)
+		for {
+			n, err := rr.ReadRows(buf)
+			for _, row := range buf[:n] {
+				if at >= len(want) {
+					rr.Close()
+					return fmt.Sprintf("more than the %d rows written are read back", len(want))
+				}
+				if msg := diffRow(want[at], row); msg != "" {
+					rr.Close()
+					return fmt.Sprintf("row %d (row group %d): %s", at, gi+1, msg)
+				}
+				at++
+			}
+			if err == io.EOF {
+				break
+			}
+			if err != nil {
+				rr.Close()
+				return fmt.Sprintf("ReadRows in row group %d: %v", gi+1, err)
+			}
+			if n == 0 {
+				rr.Close()
+				return fmt.Sprintf("ReadRows in row group %d made no progress", gi+1)
+			}
+		}
+		rr.Close()
+	}
+	if at != len(want) {
+		return fmt.Sprintf("%d rows read back, %d written", at, len(want))
+	}
+	return ""
+}
+
+func diffRow(want, got parquet.Row) string {
+	if len(want) != len(got) {
+		return fmt.Sprintf("%d values read back, %d written", len(got), len(want))
+	}
+	for i := range want {
+		a, b := want[i], got[i]
+		if !sameValue(a, b) || a.RepetitionLevel() != b.RepetitionLevel() || a.DefinitionLevel() != b.DefinitionLevel() {
+			return fmt.Sprintf("value %d: %s (levels %d/%d) read back as %s (levels %d/%d)", i, showValue(a), a.RepetitionLevel(), a.DefinitionLevel(),
+				showValue(b), b.RepetitionLevel(), b.DefinitionLevel())
+		}
+	}
+	return ""
+}
+
+// --- GenericWriter[dictRow].Write: one column per kind
+
+type typedSink struct {
+	w *parquet.GenericWriter[dictRow]
+}
+
+func typedRows(group [][]int) []dictRow {
+	rows := make([]dictRow, len(group))
+	for i, keys := range group {
+		key := 0
+		if len(keys) > 0 {
+			key = keys[0]
+		}
+		rows[i] = dictRowOf(key)
+	}
+	return rows
+}
+
+func (s *typedSink) write(group [][]int, chunk int) error {
+	rows := typedRows(group)
+	if chunk <= 0 {
+		chunk = len(rows)
+	}
+	for i := 0; i < len(rows); i += chunk {
+		j := min(i+chunk, len(rows))
+		n, err := s.w.Write(rows[i:j])
+		if err != nil {
+			return err
+		}
+		if n != j-i {
+			return fmt.Errorf("Write of %d rows wrote %d", j-i, n)
+		}
+	}
+	return nil
+}
+
+func (s *typedSink) Flush() error      { return s.w.Flush() }
+func (s *typedSink) Close() error      { return s.w.Close() }
+func (s *typedSink) Reset(o io.Writer) { s.w.Reset(o) }
+
+func (s *typedSink) verify(file []byte, groups [][][]int, st *fileStats) string {
+	f, err := parquet.OpenFile(bytes.NewReader(file), int64(len(file)))
+	if err != nil {
+		return "OpenFile: " + err.Error()
+	}
+	inspect(f, st)
+	var want []dictRow
+	for _, g := range groups {
+		want = append(want, typedRows(g)...)
+	}
+	r := parquet.NewGenericReader[dictRow](f)
+	defer r.Close()
+	got := make([]dictRow, len(want)+3)
+	n := 0
+	for n < len(got) {
+		m, err := r.Read(got[n:])
+		n += m
+		if err == io.EOF {
+			break
+		}
+		if err != nil {
+			return "Read: " + err.Error()
+		}
+		if m == 0 {
+			return "Read made no progress"
+		}
+	}
+	if n != len(want) {
+		return fmt.Sprintf("%d rows read back, %d written", n, len(want))
+	}
+	for i := range want {
+		if d := diffDictRow(want[i], got[i]); d != "" {
+			return fmt.Sprintf("row %d: column %s", i, d)
+		}
+	}
+	return ""
+}
+
+// --- GenericBuffer[dictRow] reused through Reset: each group is written,
+// read back and the buffer reset.
+func checkBuffer(fc *dictFileCase) string {
+	var buf *parquet.GenericBuffer[dictRow]
+	if p := safely(func() { buf = parquet.NewGenericBuffer[dictRow]() }); p != "" {
+		return "NewGenericBuffer panicked: " + p
+	}
+	for g, grp := range fc.Groups {
+		rows := typedRows(grp)
+		chunk := fc.Chunk
+		if chunk <= 0 {
+			chunk = len(rows)
+		}
+		bad := ""
+		p := safely(func() {
+			for i := 0; i < len(rows); i += chunk {
+				if _, err := buf.Write(rows[i:min(i+chunk, len(rows))]); err != nil {
+					bad = "Write: " + err.Error()
+					return
+				}
+			}
+			out := make([]dictRow, len(rows)+1)
+			r := parquet.NewGenericRowGroupReader[dictRow](buf)
+			n := 0
+			for n < len(out) {
+				m, err := r.Read(out[n:])
+				n += m
+				if err != nil || m == 0 {
+					break
+				}
+			}
+			r.Close()
+			if n != len(rows) {
+				bad = fmt.Sprintf("%d rows read back, %d written", n, len(rows))
+				return
+			}
+			for i := range rows {
+				if d := diffDictRow(rows[i], out[i]); d != "" {
+					bad = fmt.Sprintf("row %d: column %s", i, d)
+					return
+				}
+			}
+			buf.Reset()
+		})
+		if p != "" {
+			return fmt.Sprintf("group %d panicked: %s", g+1, core.Trunc(p, 200))
+		}
+		if bad != "" {
+			return fmt.Sprintf("group %d: %s", g+1, bad)
+		}
+	}
+	return ""
+}
+
+func (k *checker) checkFileCase(fc *dictFileCase) {
+	bad := ""
+	if p := safely(func() { bad = checkFile(fc, nil) }); p != "" {
+		bad = "panic: " + core.Trunc(p, 200)
+	}
+	if bad != "" {
+		k.viol("dict-file", fc.what()+": "+bad)
+	}
+}
+
+func shrinkFile(c *core.Ctx, fc *dictFileCase) *dictFileCase {
+	cur := *fc
+	fails := func(t *dictFileCase) bool {
+		return c.Probe(func() { check(c, &c04Case{Enc: "dict-file", File: t}) })
+	}
+	budget := 3000
+	try := func(t dictFileCase) bool {
+		if budget <= 0 {
+			return false
+		}
+		budget--
+		if fails(&t) {
+			cur = t
+			return true
+		}
+		return false
+	}
+	for changed := true; changed && budget > 0; {
+		changed = false
+		// fewer groups
+		for g := range cur.Groups {
+			if len(cur.Groups) <= 1 {
+				break
+			}
+			t := cur
+			t.Groups = append(append([][][]int(nil), cur.Groups[:g]...), cur.Groups[g+1:]...)
+			if try(t) {
+				changed = true
+				break
+			}
+		}
+		if changed {
+			continue
+		}
+		// simpler configuration
+		for _, f := range []func(t *dictFileCase) bool{
+			func(t *dictFileCase) bool { ok := t.V2; t.V2 = false; return ok },
+			func(t *dictFileCase) bool { ok := t.MaxBytes != 0; t.MaxBytes = 0; return ok },
+			func(t *dictFileCase) bool { ok := t.PageBuf != 0; t.PageBuf = 0; return ok },
+			func(t *dictFileCase) bool { ok := t.Chunk != 0; t.Chunk = 0; return ok },
+			func(t *dictFileCase) bool {
+				ok := t.Shape == "repeated" || t.Shape == "optional"
+				t.Shape = "required"
+				return ok
+			},
+			func(t *dictFileCase) bool { ok := t.Split == "maxrows"; t.Split = "flush"; return ok },
+		} {
+			t := cur
+			if f(&t) && try(t) {
+				changed = true
+				break
+			}
+		}
+		if changed {
+			continue
+		}
+		// fewer rows
+		for g := range cur.Groups {
+			rows := cur.Groups[g]
+			for _, n := range []int{len(rows) / 2, len(rows) / 4, 8, 1} {
+				if n < 1 || n > len(rows) || cur.Split == "maxrows" && g == 0 {
+					continue
+				}
+				for j := 0; j+n <= len(rows); j += n {
+					t := cur
+					t.Groups = append([][][]int(nil), cur.Groups...)
+					t.Groups[g] = append(append([][]int(nil), rows[:j]...), rows[j+n:]...)
+					if try(t) {
+						changed = true
+						break
+					}
+				}
+				if changed {
+					break
+				}
+			}
+			if changed {
+				break
+			}
+		}
+		if changed {
+			continue
+		}
+		// fewer values per row
+		for g := range cur.Groups {
+			for r, keys := range cur.Groups[g] {
+				if len(keys) <= 1 {
+					continue
+				}
+				t := cur
+				t.Groups = append([][][]int(nil), cur.Groups...)
+				t.Groups[g] = append([][]int(nil), cur.Groups[g]...)
+				t.Groups[g][r] = keys[:1]
+				if try(t) {
+					changed = true
+					break
+				}
+			}
+			if changed {
+				break
+			}
+		}
+	}
+	// dense keys
+	ren := map[int]int{}
+	t := cur
+	t.Groups = make([][][]int, len(cur.Groups))
+	for g := range cur.Groups {
+		t.Groups[g] = make([][]int, len(cur.Groups[g]))
+		for r, keys := range cur.Groups[g] {
+			t.Groups[g][r] = renameKeys(keys, ren)
+		}
+	}
+	try(t)
+	return &cur
+}
+
+func runFile(c *core.Ctx, fc *dictFileCase, bucket string) {
+	cs := &c04Case{Enc: "dict-file", File: fc}
+	if c.Probe(func() { check(c, cs) }) {
+		check(c, &c04Case{Enc: "dict-file", File: shrinkFile(c, fc)})
+	}
+	// what the file looks like (second run, only to classify the case)
+	st := &fileStats{}
+	safely(func() { checkFile(fc, st) })
+	nontrivial := len(fc.Groups) >= 2
+	if fc.Path != "buffer" {
+		if fc.Split == "flush" || fc.Split == "maxrows" {
+			nontrivial = nontrivial && st.rowGroups >= 2
+		}
+		if st.dictPages > 0 {
+			c.Res.Buckets["dict/file:dictionary-pages-written"] += st.dictPages
+		}
+		if fc.MaxBytes > 0 {
+			nontrivial = nontrivial && st.fallback
+			if st.fallback {
+				c.Res.Buckets["dict/file:fallback-to-plain-happened"]++
+			}
+		}
+	}
+	c.Case("dict/file/"+bucket, fc.String(), nontrivial)
+}
+
+// groupsOf draws the keys of g row groups of r rows over about d distinct
+// values per group.  pattern: same (every group the same values), disjoint,
+// new-then-old (new values first, then those of the previous groups backwards),
+// subset (a part of the first group's values, backwards), random (a range that
+// half overlaps the previous group's).
+func groupsOf(rng *rand.Rand, pattern string, g, r, d int, shape string) [][][]int {
+	out := make([][][]int, g)
+	for gi := range out {
+		var keys []int
+		switch pattern {
+		case "same":
+			keys = keysFrom(rng, r, 0, d, gi%2)
+		case "disjoint":
+			keys = keysFrom(rng, r, gi*d, d, 0)
+		case "new-then-old":
+			if gi == 0 {
+				keys = keysFrom(rng, r, 0, d, 0)
+			} else {
+				fresh := min(r, (d+1)/2)
+				keys = append(keysFrom(rng, fresh, gi*d, d, 0), keysFrom(rng, r-fresh, 0, gi*d, 1)...)
+			}
+		case "subset":
+			if gi == 0 {
+				keys = keysFrom(rng, r, 0, d, 0)
+			} else {
+				keys = keysFrom(rng, r, d/3, max(1, d/2), 1)
+			}
+		default:
+			keys = keysFrom(rng, r, gi*d/2, d, 2+rng.Intn(2))
+		}
+		rows := make([][]int, 0, r)
+		for i := 0; i < len(keys); {
+			switch shape {
+			case "optional":
+				if rng.Intn(5) == 0 {
+					rows = append(rows, []int{})
+				}
+				rows = append(rows, keys[i:i+1])
+				i++
+			case "repeated":
+				n := rng.Intn(4)
+				if n == 0 {
+					rows = append(rows, []int{})
+					n = 1
+				}
+				j := min(i+n, len(keys))
+				rows = append(rows, keys[i:j])
+				i = j
+			default:
+				rows = append(rows, keys[i:i+1])
+				i++
+			}
+		}
+		out[gi] = rows
+	}
+	return out
+}
+
+var dictPatterns = []string{"same", "disjoint", "new-then-old", "subset", "random"}
+
+func dictFile(c *core.Ctx) {
+	rng := c.Rng
+	shapes := []string{"required", "optional", "repeated"}
+	splits := []string{"flush", "maxrows", "reset", "abandon"}
+	reps := c.N(1, 4)
+	pi := 0
+	for rep := 0; rep < reps; rep++ {
+		for ki := range dictKinds {
+			k := &dictKinds[ki]
+			for _, shape := range shapes {
+				if k.isNull() && shape == "required" {
+					continue
+				}
+				for _, split := range splits {
+					// without a size limit
+					pattern := dictPatterns[pi%len(dictPatterns)]
+					pi++
+					fc := &dictFileCase{Kind: k.name, Path: "rows", Shape: shape, Split: split,
+						Chunk:  []int{0, 0, 1, 7, 100}[rng.Intn(5)],
+						Groups: groupsOf(rng, pattern, 2+rng.Intn(3), 5+rng.Intn(140), 1+rng.Intn(40), shape),
+						V2:     rng.Intn(3) == 0}
+					if rng.Intn(3) == 0 {
+						fc.PageBuf = []int{64, 256, 1024}[rng.Intn(3)]
+					}
+					runFile(c, fc, "rows/"+pattern)
+				}
+				// the dictionary outgrows DictionaryMaxBytes in the middle of a
+				// row group: the remaining pages of the group are PLAIN, the next
+				// group (or file) starts over with an empty dictionary
+				for _, split := range []string{"flush", "reset"} {
+					pattern := dictPatterns[pi%len(dictPatterns)]
+					pi++
+					d := 20 + rng.Intn(60)
+					fc := &dictFileCase{Kind: k.name, Path: "rows", Shape: shape, Split: split,
+						Chunk:    []int{0, 5, 16}[rng.Intn(3)],
+						Groups:   groupsOf(rng, pattern, 2+rng.Intn(2), 2*d+rng.Intn(200), d, shape),
+						MaxBytes: []int64{1, 40, 150}[rng.Intn(3)],
+						PageBuf:  []int{32, 64, 200}[rng.Intn(3)],
+						V2:       rng.Intn(3) == 0}
+					if k.isBool() {
+						fc.MaxBytes = 1 // never exceeded by the one byte of a BOOLEAN dictionary
+					}
+					runFile(c, fc, "rows-fallback/"+pattern)
+				}
+			}
+		}
+	}
+	// the typed row of all kinds
+	for rep := 0; rep < c.N(2, 8); rep++ {
+		for _, pattern := range dictPatterns {
+			for _, split := range splits {
+				fc := &dictFileCase{Kind: "struct", Path: "typed", Split: split,
+					Chunk:  []int{0, 0, 1, 9, 100}[rng.Intn(5)],
+					Groups: groupsOf(rng, pattern, 2+rng.Intn(3), 5+rng.Intn(200), 1+rng.Intn(50), "required"),
+					V2:     rng.Intn(3) == 0}
+				runFile(c, fc, "typed/"+pattern)
+				if split == "flush" || split == "reset" {
+					d := 20 + rng.Intn(60)
+					fb := &dictFileCase{Kind: "struct", Path: "typed", Split: split,
+						Chunk:    []int{0, 5, 16}[rng.Intn(3)],
+						Groups:   groupsOf(rng, pattern, 2+rng.Intn(2), 2*d+rng.Intn(200), d, "required"),
+						MaxBytes: []int64{40, 150, 600}[rng.Intn(3)],
+						PageBuf:  []int{64, 200, 1000}[rng.Intn(3)]}
+					runFile(c, fb, "typed-fallback/"+pattern)
+				}
+			}
+			fc := &dictFileCase{Kind: "struct", Path: "buffer",
+				Chunk:  []int{0, 1, 100}[rng.Intn(3)],
+				Groups: groupsOf(rng, pattern, 2+rng.Intn(3), 5+rng.Intn(700), 1+rng.Intn(50), "required")}
+			runFile(c, fc, "buffer/"+pattern)
+		}
+	}
+	names := make([]string, len(dictKinds))
+	for i := range dictKinds {
+		names[i] = dictKinds[i].name
+	}
+	sort.Strings(names)
+	c.Note("dictionary kinds: %v; files: every kind x {required, optional, repeated} x {Flush between groups, MaxRowsPerRowGroup, writer Close+Reset, writer Reset without Close} x value patterns %v, with and without DictionaryMaxBytes exceeded in the middle of a row group; typed rows (bool, int32, int64, deprecated.Int96, uint32, uint64, float32, float64, string, [16]byte, uuid, [5]byte, time.Time, date, *int64, *deprecated.Int96, []string, all with the dict tag) through GenericWriter and a GenericBuffer reused through Reset", names, dictPatterns)
 }
